@@ -346,6 +346,15 @@ class Algebra:
             if concrete_int(b) is not None and concrete_int(b) > 0:
                 return a / b  # z3 Int div == floor for positive divisor
             raise Unsupported("int floordiv by symbolic divisor")
+        if op == "pow":
+            ca = concrete_int(a)
+            if ca == 2:
+                # 2 ** e for an exponent in [0, bits): table (the result wraps like the dtype for larger exponents: not modelled)
+                r = z3.Function("pow2_out_of_table", z3.IntSort(), z3.IntSort())(b)   # unknown outside the table
+                for e in range(bits - 1, -1, -1):
+                    r = z3.If(b == e, z3.IntVal(1 << e), r)
+                return self.wrap(r, d)
+            raise Unsupported("integer power with a base other than 2")
         if op in ("lshift", "rshift", "and", "or", "xor"):
             cb = concrete_int(b)
             if op == "lshift" and cb is not None:
@@ -368,6 +377,19 @@ class Algebra:
             if op == "truediv":
                 self.side.append(("div-nonzero", b != 0))
                 return a / b
+            if op == "pow":
+                # x ** y over the reals: small constant natural exponents are products; otherwise an uninterpreted function with the
+                # facts x**1 == x, x**0 == 1, and x >= 0 -> x**y >= 0 (nothing else is assumed about it)
+                bv = z3.simplify(b) if z3.is_expr(b) else b
+                if z3.is_expr(bv) and z3.is_rational_value(bv) and bv.denominator_as_long() == 1 and 0 <= bv.numerator_as_long() <= 4:
+                    r = z3.RealVal(1)
+                    for _ in range(bv.numerator_as_long()):
+                        r = r * a
+                    return r
+                f = z3.Function("pow_real", z3.RealSort(), z3.RealSort(), z3.RealSort())
+                v = f(a, b)
+                self.side.append(("fact", z3.And(z3.Implies(b == 1, v == a), z3.Implies(b == 0, v == 1), z3.Implies(a >= 0, v >= 0))))
+                return v
             raise Unsupported(f"real op {op}")
         rm = z3.RNE()
         if op == "add":
